@@ -871,12 +871,19 @@ package engine
 //@   loop 0
 //@     invariant names.arr == 0 || fresh(names.arr)
 
+// A region is recorded exactly as reported - a region whose end lies before its start is empty and stays
+// empty (the differ reports such regions for the last element of a list); the interval set itself is
+// go-intervals state and not modelled (C17).
 //@ func (c Changelog) Changed(start, end)
-//@   trusted records an interval in a go-intervals set (dependency state, not modelled)
+//@   requires typing: c.plus != nil
+//@   at call (*engine.span).AsSet assert [C17] the-region-is-recorded-as-reported: arg0.Start == start && arg0.End == end
+//@   at call (*github.com/google/go-intervals/intervalset.Set).Add assert [C17] changed-regions-go-to-the-changed-set: arg0 == c.plus
 //@   assigns nothing
 
 //@ func (c Changelog) Unchanged(start, end)
-//@   trusted records an interval in a go-intervals set (dependency state, not modelled)
+//@   requires typing: c.minus != nil
+//@   at call (*engine.span).AsSet assert [C17] the-region-is-recorded-as-reported: arg0.Start == start && arg0.End == end
+//@   at call (*github.com/google/go-intervals/intervalset.Set).Add assert [C17] unchanged-regions-go-to-the-unchanged-set: arg0 == c.minus
 //@   assigns nothing
 
 //@ func lookupSliceDotsSkipped(d, dots) (result, region)
